@@ -276,9 +276,14 @@ func opC12Cells(raw json.RawMessage, o *Out) {
 				o.Fail("cell/Distance-zero/vertex/"+cls, "Distance(grid vertex (%d,%d)) = 0 but the cell does not touch it: %s", v/(e.vn+1), v%(e.vn+1), desc)
 			}
 		}
-		for k := 0; k < 4; k++ {
-			if !rect.ContainsPoint(cell.Vertex(k)) || !capb.ContainsPoint(cell.Vertex(k)) {
-				o.Fail("cell/bounds/own-vertex/"+cls, "RectBound/CapBound does not contain Vertex(%d): %s", k, desc)
+		c12Bounds(o, cls, id)
+		if e.a == 0 {
+			// the cell with the same path on each of the other five faces (the model tables depend
+			// on the face only through its parity, the bounds on its axes): bounds on every face
+			for f := 0; f < 6; f++ {
+				if f != e.r.Face {
+					c12Bounds(o, cls, emb.RawID(f, c12Digits(mc.K, mc.L)))
+				}
 			}
 		}
 		// ---- F. other cells of the root
@@ -341,6 +346,7 @@ func opC12Cells(raw json.RawMessage, o *Out) {
 		for k := 0; k < 4; k++ {
 			samples = append(samples, cell.Vertex(k))
 		}
+		c12LongEdges(o, cls, desc, cell, append(append([]s2.Point(nil), samples...), cell.Center()))
 		targets := append(append([]s2.Point(nil), e.probePt...), far...)
 		for ti, t := range targets {
 			d := cell.Distance(t)
@@ -402,6 +408,107 @@ func opC12Cells(raw json.RawMessage, o *Out) {
 		}
 	}
 	o.sample = map[string]any{"op": "c12cells", "root": c12Name(e.rootID), "cells": len(c.Cells), "first": c.Cells[0].K, "level": c.Cells[0].L}
+}
+
+// c12Bounds: RectBound and CapBound of the cell contain its four vertices, its centre and the
+// centres of its descendants one, two and three levels down (an 8x8 grid of interior points;
+// contained by id-range, model theorem T_Prefix).
+func c12Bounds(o *Out, cls string, id s2.CellID) {
+	cell := s2.CellFromCellID(id)
+	rect, capb := cell.RectBound(), cell.CapBound()
+	desc := "cell " + c12Name(id)
+	check := func(what string, p s2.Point) {
+		o.Count("bound_point_evals")
+		if !rect.ContainsPoint(p) {
+			o.Fail("cell/RectBound/"+what+"/"+cls, "RectBound %v does not contain %s (%.17g,%.17g,%.17g) = %v: %s", rect, what, p.X, p.Y, p.Z, s2.LatLngFromPoint(p), desc)
+		}
+		if !capb.ContainsPoint(p) {
+			o.Fail("cell/CapBound/"+what+"/"+cls, "CapBound %v does not contain %s (%.17g,%.17g,%.17g): %s", capb, what, p.X, p.Y, p.Z, desc)
+		}
+	}
+	for k := 0; k < 4; k++ {
+		check("own-vertex", cell.Vertex(k))
+	}
+	check("own-centre", cell.Center())
+	lvl := emb.RawLevel(id)
+	for d := 1; d <= 3 && lvl+d <= 30; d++ {
+		for k := 0; k < 1<<uint(2*d); k++ {
+			check("descendant-centre", emb.Under(id, c12Digits(k, d)).Point())
+		}
+	}
+}
+
+// c12LongEdges: edge targets of 95..175 degrees that pass through or near the antipode of the
+// cell centre, with one endpoint within 90 degrees of the cell and the other not, both beyond,
+// or both within.  MaxDistanceToEdge must be an upper bound of the distance between every
+// sampled point of the cell and every sampled point of the edge (and of the library's own
+// point-to-edge maximum), and satisfy the documented duality with DistanceToEdge(-a,-b).
+func c12LongEdges(o *Out, cls, desc string, cell s2.Cell, samples []s2.Point) {
+	ctr := cell.Center()
+	anti := s2.Point{Vector: ctr.Mul(-1)}
+	x := anti.Ortho()
+	y := anti.Cross(x).Normalize()
+	deg := math.Pi / 180
+	for di := 0; di < 4; di++ {
+		th := float64(di)*math.Pi/4 + 0.3
+		dir := x.Mul(math.Cos(th)).Add(y.Mul(math.Sin(th)))
+		side := x.Mul(-math.Sin(th)).Add(y.Mul(math.Cos(th)))
+		for _, sp := range [][3]float64{{-10, 100, 0}, {-55, 55, 0}, {-5, 170, 0}, {-30, 80, 3}, {-100, 10, -1}, {20, 120, 0}, {-85, 85, 0.5}, {-160, -60, 0}, {95, 178, 2}} {
+			// base point: the antipode of the centre moved sideways by sp[2] degrees
+			base := anti.Mul(math.Cos(sp[2] * deg)).Add(side.Mul(math.Sin(sp[2] * deg)))
+			at := func(t float64) s2.Point {
+				return s2.Point{Vector: base.Mul(math.Cos(t * deg)).Add(dir.Mul(math.Sin(t * deg))).Normalize()}
+			}
+			a, b := at(sp[0]), at(sp[1])
+			o.Count("long_edge_evals")
+			ed := fmt.Sprintf("edge of %.0f degrees from %.0f to %.0f degrees along direction %d past the antipode of the centre (sideways %.1f), a=(%.17g,%.17g,%.17g) b=(%.17g,%.17g,%.17g): %s", sp[1]-sp[0], sp[0], sp[1], di, sp[2], a.X, a.Y, a.Z, b.X, b.Y, b.Z, desc)
+			md := cell.MaxDistanceToEdge(a, b)
+			d := cell.DistanceToEdge(a, b)
+			if rev := cell.MaxDistanceToEdge(b, a); rev != md {
+				o.Fail("longedge/MaxDistanceToEdge/reversal/"+cls, "MaxDistanceToEdge(a,b) = %.17g, (b,a) = %.17g: %s", float64(md), float64(rev), ed)
+			}
+			if !c12Leq(d, md) {
+				o.Fail("longedge/min-le-max/"+cls, "DistanceToEdge = %.17g > MaxDistanceToEdge = %.17g: %s", float64(d), float64(md), ed)
+			}
+			// duality as the code documents it: max distance = pi - min distance to the antipodal edge
+			na, nb := s2.Point{Vector: a.Mul(-1)}, s2.Point{Vector: b.Mul(-1)}
+			if dual := 4 - float64(cell.DistanceToEdge(na, nb)); math.Abs(float64(md)-dual) > c12Tol(4) {
+				o.Fail("longedge/MaxDistanceToEdge/antipodal-duality/"+cls, "MaxDistanceToEdge = %.17g (%.4f degrees) but 4 - DistanceToEdge(-a,-b) = %.17g (%.4f degrees): %s", float64(md), s1.ChordAngle(md).Angle().Degrees(), dual, s1.ChordAngle(math.Min(dual, 4)).Angle().Degrees(), ed)
+			}
+			if dual := 4 - float64(cell.MaxDistanceToEdge(na, nb)); math.Abs(float64(d)-dual) > c12Tol(4) {
+				o.Fail("longedge/DistanceToEdge/antipodal-duality/"+cls, "DistanceToEdge = %.17g but 4 - MaxDistanceToEdge(-a,-b) = %.17g: %s", float64(d), dual, ed)
+			}
+			if !c12Leq(cell.MaxDistance(a), md) || !c12Leq(cell.MaxDistance(b), md) || d > cell.Distance(a) || d > cell.Distance(b) {
+				o.Fail("longedge/endpoints/"+cls, "MaxDistanceToEdge = %.17g, MaxDistance(a) = %.17g, MaxDistance(b) = %.17g; DistanceToEdge = %.17g, Distance(a) = %.17g, Distance(b) = %.17g: %s",
+					float64(md), float64(cell.MaxDistance(a)), float64(cell.MaxDistance(b)), float64(d), float64(cell.Distance(a)), float64(cell.Distance(b)), ed)
+			}
+			// points of the edge
+			var ys []s2.Point
+			for k := 0; k <= 16; k++ {
+				ys = append(ys, s2.Interpolate(float64(k)/16, a, b))
+			}
+			for si, s := range samples {
+				// the library's own point-to-edge distances
+				pmax, _ := s2.UpdateMaxDistance(s, a, b, s1.NegativeChordAngle)
+				pmin, _ := s2.UpdateMinDistance(s, a, b, s1.InfChordAngle())
+				if !c12Leq(pmax, md) {
+					o.Fail("longedge/MaxDistanceToEdge/not-an-upper-bound/"+cls, "MaxDistanceToEdge = %.17g (%.4f degrees) but sample %d of the cell is at most %.17g (%.4f degrees) from the edge: %s", float64(md), md.Angle().Degrees(), si, float64(pmax), pmax.Angle().Degrees(), ed)
+				}
+				if !c12Leq(d, pmin) {
+					o.Fail("longedge/DistanceToEdge/not-a-lower-bound/"+cls, "DistanceToEdge = %.17g but sample %d of the cell is at %.17g from the edge: %s", float64(d), si, float64(pmin), ed)
+				}
+				for yi, yp := range ys {
+					ds := s2.ChordAngleBetweenPoints(s, yp)
+					if !c12Leq(ds, md) {
+						o.Fail("longedge/MaxDistanceToEdge/point-pair-farther/"+cls, "MaxDistanceToEdge = %.17g (%.4f degrees) but sample %d of the cell and point %d/16 of the edge are %.17g (%.4f degrees) apart: %s", float64(md), md.Angle().Degrees(), si, yi, float64(ds), ds.Angle().Degrees(), ed)
+					}
+					if !c12Leq(d, ds) {
+						o.Fail("longedge/DistanceToEdge/point-pair-closer/"+cls, "DistanceToEdge = %.17g but sample %d of the cell and point %d/16 of the edge are %.17g apart: %s", float64(d), si, yi, float64(ds), ed)
+					}
+				}
+			}
+		}
+	}
 }
 
 func c12Padded(o *Out, e *c12Env, cls, desc string, mc c12Cell, cell s2.Cell, kids [4]s2.Cell, lvl int) {
